@@ -15,6 +15,7 @@ patch = os.path.join(sd, 'patch.diff'); demo = open(os.path.join(sd, 'demo.rs'))
 m = re.search(r'(crates/[\w\-/]+\.rs)', demo)
 host = m.group(1)
 crate = host.split('/')[1]
+tgt = '--bins' if host.endswith('main.rs') else '--lib'
 meta = {'property': prop, 'source': sd, 'host_file': host}
 sh('git checkout -- . && git clean -fdq crates', wt)
 rc, out = sh(f'git apply --check {patch} && git apply {patch}', wt)
@@ -26,13 +27,13 @@ meta['suite_passes_with_patch'] = suite_ok
 wrapped = demo if re.search(r'mod\s+\w+\s*\{', demo) else '#[cfg(test)]\nmod seed_demo_mod {\nuse super::*;\n' + demo + '\n}\n'
 sh('git checkout -- . ', wt); sh(f'git apply {patch}', wt)
 with open(os.path.join(wt, host), 'a') as f: f.write('\n' + wrapped + '\n')
-rc, out = sh(f'cargo test -p {crate} --lib seed_demo --offline 2>&1 | tail -30', wt)
+rc, out = sh(f'cargo test -p {crate} {tgt} seed_demo --offline 2>&1 | tail -30', wt)
 mm = re.search(r'test result: (ok|FAILED)\. (\d+) passed; (\d+) failed', out)
 meta['demo_with_patch'] = mm.group(0) if mm else out[-600:]
 demo_fails = bool(mm and mm.group(1) == 'FAILED' and int(mm.group(3)) >= 1) or ('overflowed its stack' in out or 'SIGSEGV' in out or 'SIGABRT' in out)
 sh('git checkout -- . ', wt)
 with open(os.path.join(wt, host), 'a') as f: f.write('\n' + wrapped + '\n')
-rc, out = sh(f'cargo test -p {crate} --lib seed_demo --offline 2>&1 | tail -30', wt)
+rc, out = sh(f'cargo test -p {crate} {tgt} seed_demo --offline 2>&1 | tail -30', wt)
 mm = re.search(r'test result: (ok|FAILED)\. (\d+) passed; (\d+) failed', out)
 meta['demo_without_patch'] = mm.group(0) if mm else out[-600:]
 demo_passes = bool(mm and mm.group(1) == 'ok' and int(mm.group(2)) >= 1)
@@ -41,24 +42,33 @@ meta['confirmed'] = bool(meta['patch_applies'] and suite_ok and demo_fails and d
 print(json.dumps({k: meta[k] for k in ('patch_applies', 'suite_passes_with_patch', 'demo_with_patch', 'demo_without_patch', 'confirmed')}, indent=1))
 # ---- run the checks against /repo with the patch
 results = {}
+copy = sys.argv[sys.argv.index('--repo-copy') + 1] if '--repo-copy' in sys.argv else None
 if meta['confirmed'] or '--force' in sys.argv:
-    assert subprocess.run('git -C /repo status --short | grep -v "^??" | wc -l', shell=True, stdout=subprocess.PIPE).stdout.strip() == b'0', '/repo not clean'
-    subprocess.check_call(f'git -C /repo apply {patch}', shell=True)
+    if copy:
+        # second lane: a scratch export of /repo's HEAD with the patch applied, checked through VERIF_REPO (never /repo itself)
+        subprocess.check_call(f'rm -rf {copy} && mkdir -p {copy} && git -C /repo archive HEAD | tar -x -C {copy} && cd {copy} && git init -q && git apply {patch}', shell=True)
+        runenv = dict(os.environ, VERIF_REPO=copy)
+    else:
+        assert subprocess.run('git -C /repo status --short | grep -v "^??" | wc -l', shell=True, stdout=subprocess.PIPE).stdout.strip() == b'0', '/repo not clean'
+        subprocess.check_call(f'git -C /repo apply {patch}', shell=True)
+        runenv = dict(os.environ)
     try:
         for p in [prop] + also:
             t0 = time.time()
-            r = subprocess.run(f'/verif/check {p} quick', shell=True, stdout=subprocess.PIPE, stderr=subprocess.STDOUT, cwd='/verif')
+            r = subprocess.run(f'/verif/check {p} quick', shell=True, stdout=subprocess.PIPE, stderr=subprocess.STDOUT, cwd='/verif', env=runenv)
             o = r.stdout.decode(errors='replace')
             lines = [l for l in o.split('\n') if l.startswith(('VIOLATION', 'INCONCLUSIVE', 'KNOWN-FINDING')) or ('violation key=' in l)]
             results[p] = {'exit': r.returncode, 'wall_s': round(time.time() - t0), 'lines': [l[:400] for l in lines[:12]]}
             print(p, 'exit', r.returncode); print('\n'.join(l[:300] for l in lines[:8]))
     finally:
-        subprocess.check_call('git -C /repo checkout -- .', shell=True)
+        if copy: subprocess.call(f'rm -rf {copy}', shell=True)
+        else: subprocess.check_call('git -C /repo checkout -- .', shell=True)
 meta['checks'] = results
 meta['caught_by'] = [p for p, r in results.items() if r['exit'] == 1]
+store = sys.argv[sys.argv.index('--store-as') + 1] if '--store-as' in sys.argv else prop
 n = 1
-while os.path.exists(f'/verif/seeded/{prop}-{n}'): n += 1
-out = f'/verif/seeded/{prop}-{n}'
+while os.path.exists(f'/verif/seeded/{store}-{n}'): n += 1
+out = f'/verif/seeded/{store}-{n}'
 os.makedirs(out)
 shutil.copy(patch, out + '/patch.diff'); shutil.copy(os.path.join(sd, 'demo.rs'), out + '/demo.rs')
 if os.path.exists(os.path.join(sd, 'README.md')): shutil.copy(os.path.join(sd, 'README.md'), out + '/README.md')
